@@ -84,6 +84,19 @@ func genC12(g *Gen) {
 		g.addf("bq %s a:%d:0:5 rx1freq %d", k, f, f)
 		g.addf("bq %s a:%d:0:5 rx1chan %d", k, f, g.r.Intn(100))
 	}
+	// ... and after histories of additions (frequency 0 placeholders included), disables and enables: every channel, both lists
+	for i := 0; i < g.scale(150, 3000); i++ {
+		k := allCfgKeys()[g.r.Intn(56)]
+		h := g.genHistory(k, 10, false)
+		n := len(snapshotOf(k).UplinkChannels) + strings.Count(h, "a:")
+		if n > 24 {
+			n = 24
+		}
+		for c := 0; c < n; c++ {
+			g.addf("bq %s %s chan %d", k, h, len(snapshotOf(k).UplinkChannels)+strings.Count(h, "a:")-1-c)
+		}
+		g.addf("bq %s %s rx1chan %d", k, h, g.r.Intn(n+1))
+	}
 }
 
 func genC13(g *Gen) {
